@@ -266,7 +266,7 @@ namespace irx {
     //---------------------------------------------------------------- memory
     int new_obj(uint64_t size, bool heap, const std::string & name)
     {
-      if (size > (1u << 26)) throw Fatal{"allocation too large: " + std::to_string(size)};
+      if (size > (1u << 26)) { report_path_event("memory_error", "allocation of " + std::to_string(size) + " bytes (> 64 MiB): unbounded allocation"); st.mem_errors++; throw PathEnd{"memerr"}; }
       Obj o;
       o.bytes.resize(size);
       o.heap = heap;
